@@ -40,9 +40,9 @@ type mpTx struct {
 	shape  string
 }
 
-func (t *mpTx) GetMsgs() []sdk.Msg                      { return t.msgs }
-func (t *mpTx) GetMsgsV2() ([]protov2.Message, error)   { return nil, nil }
-func (t *mpTx) GetSigners() ([][]byte, error)           { return [][]byte{t.pk.Address()}, nil }
+func (t *mpTx) GetMsgs() []sdk.Msg                        { return t.msgs }
+func (t *mpTx) GetMsgsV2() ([]protov2.Message, error)     { return nil, nil }
+func (t *mpTx) GetSigners() ([][]byte, error)             { return [][]byte{t.pk.Address()}, nil }
 func (t *mpTx) GetPubKeys() ([]cryptotypes.PubKey, error) { return []cryptotypes.PubKey{t.pk}, nil }
 func (t *mpTx) GetSignaturesV2() ([]signing.SignatureV2, error) {
 	return []signing.SignatureV2{{PubKey: t.pk, Sequence: t.nonce}}, nil
